@@ -292,6 +292,26 @@ def g_c20_lines(repo):
                         for k, v in want.items():
                             if k in kv and kv[k] != v:
                                 bad.append('%s %s prints %s=%s, the frame has %s' % (proto, verb, k, kv[k], v))
+                if fmt == 'console':
+                    # console lines are positional: peer MAC, own/destination MAC, peer IP, destination IP, .. - the peer first for
+                    # every verb (ARP lines: sender/target of the request, target/sender of the reply)
+                    import witness as W_
+                    macs = lambda b: ':'.join('%02x' % x for x in b)
+                    q_ = W_.decode(fr) or {}
+                    a_ = W_.decode(r[1]) if r[0] == 'reply' else None
+                    for proto, verb, rest in evs:
+                        cols = rest.split('\t')
+                        want = []
+                        if proto == 'arp':
+                            pk = a_ if verb == 'send' else q_
+                            if pk and pk.get('l3') == 'arp':
+                                want = [macs(pk['sha']), macs(pk['tha']), socket.inet_ntoa(pk['spa']), socket.inet_ntoa(pk['tpa'])]
+                                if verb == 'send': want = [want[1], want[0], want[3], want[2]]
+                        elif 'eth_src' in q_:
+                            want = [macs(q_['eth_src']), macs(q_['eth_dst'])]
+                        for k, v in enumerate(want):
+                            if k < len(cols) and cols[k] != '' and cols[k] != v:
+                                bad.append('%s %s prints %s in column %d, the frame has %s' % (proto, verb, cols[k], k + 1, v))
                 if fmt == 'logfmt' and facts:
                     for proto, verb, rest in evs:
                         if verb != 'recv' or proto in ('eth', 'arp'): continue
